@@ -76,8 +76,8 @@ def base(which="B1"):
         return {"name": "top6", "inputs": ["a[0]", "a[1]", "p"], "outputs": ["o1", "o2"], "items": items, "models": models[1:2]}
     if which == "B7":  # .clock, a port listed as input and as output, instances without .cname
         items = [
-            {"kind": "subckt", "model": "BUF", "conns": [["I", "a"], ["O", "n1"]]},
-            {"kind": "subckt", "model": "BUF", "conns": [["I", "n1"], ["O", "io"]], "attr": {"K": "v"}},
+            {"kind": "subckt", "model": "BUF", "conns": [["I", "a"], ["O", "sig_unconnected"]]},
+            {"kind": "subckt", "model": "BUF", "conns": [["I", "sig_unconnected"], ["O", "io"]], "attr": {"K": "v"}},
             {"kind": "gate", "model": "BUF", "conns": [["I", "clk"], ["O", "q"]], "cname": "g"},
             {"kind": "subckt", "model": "LUT2", "conns": [["I0", "io"], ["I1", "a"], ["O", "q2"]]},
         ]
